@@ -259,6 +259,21 @@ def fam_bank_outp(k):
     return {"main.asm": "#bankdef b\n{\n    #addr 0\n    #size 4\n    #outp %d\n}\n#d8 0x33\n" % pow2(k)}, ("either", None)
 
 
+def fam_bank_outp_m1(k):
+    # a bank window that ends beyond the machine word (outp = 2^k - 1) next to an ordinary bank: the overlap test adds outp + size
+    src = ("#bankdef far\n{\n    #addr 0\n    #size 0x10\n    #outp %d\n}\n#bankdef near\n{\n    #addr 0\n    #size 4\n    #outp 0\n}\n#d8 0x36\n"
+           % (pow2(k) - 1))
+    # k = 64: the window starts inside the machine word and only its (unused) end lies beyond it - accepted or diagnosed,
+    # but never wrapped into an overlap or a panic; from k = 65 on the offset itself is unrepresentable
+    return {"main.asm": src}, (("error",) if k >= 65 else ("either", "36"))
+
+
+def fam_res_times_bits(k):
+    # #res counts addresses: the reserved size in bits is count x address unit
+    src = "#bankdef b\n{\n    #bits %d\n    #addr 0\n    #outp 0\n}\n#res 0xffffffff\n#d8 0x37\n" % pow2(k // 2 + 1)
+    return {"main.asm": src}, ("either", None)
+
+
 def fam_bank_bits(k):
     return {"main.asm": "#bankdef b\n{\n    #bits %d\n    #addr 0\n    #size 4\n    #outp 0\n}\nl:\n#d8 0x34\n" % pow2(k)}, ("either", "34")
 
@@ -350,6 +365,8 @@ FAMILIES = {
     "bankdef-addr-end-fill": (fam_bank_addr_end_fill, POW_Q, POW_T),
     "bankdef-addr-end-below-addr": (fam_bank_addr_end_below, POW_Q, POW_T),
     "bankdef-outp": (fam_bank_outp, POW_Q, POW_T),
+    "bankdef-outp-minus-1": (fam_bank_outp_m1, POW_Q, POW_T),
+    "res-count-times-bits": (fam_res_times_bits, [2, 10, 30, 31, 32, 33, 62, 63, 64, 65, 66, 80], list(range(0, 90, 1))),
     "bankdef-bits": (fam_bank_bits, POW_Q, POW_T),
     "bankdef-bits-times-size": (fam_bank_bits_size, [2, 10, 30, 31, 32, 33, 62, 63, 64, 65, 66], list(range(0, 70, 1))),
     "bankdef-labelalign": (fam_bank_labelalign, POW_Q, POW_T),
